@@ -281,7 +281,7 @@ PROPS = {
     'C01': _kan_props(['KVerif.Props.C01', 'KVerif.Props.C01q2'],
         'non-latching whole-grammar configurations (layers, tap-hold variants, tap-dance, one-shot variants, chords v1, macros, fork/switch, multi, release-key/layer, unmod, mouse wheel/move, virtual keys operated by tap/release only, hold-for-duration, on-idle) and balanced histories - every pressed key is released, incl. bursts of 40-120 events overflowing the 32-slot queue - followed by 3000 quiet ticks; plus 20 keys pressed at once with 12-key multis (> 64 states), tap-holds (> 8), one-shot layers (> 16), macros (> 4) and tap-dances; non-trivial = output changed at least twice; oracle on the real trace: nothing down at the OS at the end, nothing emitted during the last 500 ms, kanata reports idle',
         'C01o'),
-    'C07': _kan_props(['KVerif.Props.C07', 'KVerif.Props.C07reach', 'KVerif.Props.C07src'],
+    'C07': _kan_props(['KVerif.Props.C07', 'KVerif.Props.C07reach', 'KVerif.Props.C07src', 'KVerif.Props.C07reach2', 'KVerif.Props.C07bisim'],
         'every kind of timeout pending when the loop asks whether it may block (tap-hold, one-shot incl. rapid-event-delay 0, tap-dance lazy/eager, chords, macros incl. repeat, caps-word, hold-for-duration, on-idle, mouse wheel/move, two tap-holds from one switch, key-timing switch conditions) with input gaps around each timeout, plus random whole-grammar configurations; every case is run twice on the real code in virtual time: under the processing loop that blocks whenever can_block_update_idle_waiting allows, and under the same loop that asks the same question but always ticks; non-trivial = output changed at least twice; oracle: both runs must emit the same OS events at the same virtual times (classified different-output / postponed / bounded-delay otherwise, with the model-side diagnosis of which component a tick would still change at the blocking point)',
         'C07o'),
     'C18': _kan_props(['KVerif.Props.C18', 'KVerif.Props.C18multi'],
